@@ -18,7 +18,7 @@ PROP = "C08"
 PROP_FILE = "C08_PolicySet"
 THEOREMS = ["c08_fail_noop_api", "c08_fail_noop_core", "c08_link_arity", "c08_binding_exact",
             "c08_link_effect_annotations_partial", "c08_wf_step", "c08_history_partial", "c08_wf_step_core",
-            "c08_wf_refuted_without_it", "c08_no_shared_id", "c08_link_has_template", "c08_link_subst_partial", "c08_link_static_body_refused", "c08_refines", "c08_policies_exact"]
+            "c08_wf_refuted_without_it", "c08_no_shared_id", "c08_link_has_template", "c08_link_subst_partial", "c08_link_static_body_refused", "c08_refines", "c08_policies_exact", "c08_merge_partial"]
 
 MANIFEST = {
     "text": "Policy-set bookkeeping (templates / links / template_to_links + the API-level maps) modelled operation by operation; invariant preserved by every operation and history, failed operation = no change, link arity, link = substitution for evaluation, refinement to a finite map (props/C08_PolicySet.v). Tied to /repo by correspondence on operation histories at API and core level plus an implementation-level oracle (abstract state recomputed from the successful operations, responses recomputed from probes of hand-substituted policies).",
